@@ -233,6 +233,7 @@ def oracle_loaded_vs_files(pcfg, spec, flags):
             merged = [(p, [str(x) for x in vals]) for p, vals in merged]
         if [(f2h(p), vals) for p, vals in got] != [(f2h(p), vals) for p, vals in merged]:
             v.append({'property': 'C01', 'kind': 'loaded-groups-differ-from-file', 'variable': name,
+                      'values_differ': sorted(x for _, vals in got for x in vals) != sorted(x for _, vals in merged for x in vals),
                       'file': [(repr(p), vals[:4]) for p, vals in merged][:6], 'loaded': [(repr(p), vals[:4]) for p, vals in got][:6]})
             break
     return v
